@@ -81,7 +81,9 @@ def xzmt(chain, ln=3000, nb=3, ns=1, check="crc32"):
     return "xzmt/%s/%s/%d/%d/%d" % (check, chain, ln, nb, ns)
 
 
-INIT_STEPS = ("easyenc", "senc", "sencmt", "aenc", "mlenc", "renc", "benc", "sdec", "sdecmt", "adec", "alonedec", "lzipdec", "rdec", "bdec", "mldec")
+INIT_STEPS = ("easyenc", "senc", "sencmt", "aenc", "mlenc", "renc", "benc", "sdec", "sdecmt", "adec", "alonedec", "lzipdec", "rdec", "bdec", "mldec",
+              "sdecml", "adecml", "sdecmtml")
+SMALL, SMALL2, BIG = 40000, 50000, 1 << 40     # memory limits: above LZMA_MEMUSAGE_BASE but too small for any Block here / plenty
 
 
 def hexs(s):
@@ -199,6 +201,30 @@ class Gen:
                                    "alonedec:0:lzma/%s/1000" % L1a, "memlimit:1", "dcode", "adec:0:" + xz(L2a, 500, 1, 1), "badaction", "memlimit:1",
                                    "dcode", "senc:%s:crc32" % L2a, "memlimit:1", "run:100", "badaction", "finish:10", "badaction",
                                    "idec:0:idx/10", "memlimit:1", "dcode", "fidec:1:" + xz(L2a, 300, 1, 2), "memlimit:1", "dcode"], slots=(0, 1))
+        # --- RECOVERABLE codes without any allocation failure: LZMA_MEMLIMIT_ERROR at Block init (the Block Header's filter
+        # options are allocated at that point), the LZMA_OPTIONS_ERROR twin (chain not usable), notifications; followed by
+        # lzma_end, by a re-init, or by lzma_memlimit_set + retry (0..3 retries at still-too-small limits). The allocator must
+        # balance on every one of these paths and the output, when finished, must be right.
+        X1, X2 = xz("%s+%s" % (D4, L2a), 1500, 2, 1), xz("%s+%s" % (X86o, L2a), 1200, 2, 2, "crc64")
+        add("sdec-memlimit-then-end", ["sdecml:0:%d:%s" % (SMALL, X1), "dcode"])
+        add("sdec-memlimit-retry", ["sdecml:0:%d:%s" % (SMALL, X1), "dcode", "memlimit:%d" % BIG, "dcont",
+                                    "sdecml:8:%d:%s" % (SMALL, X2), "dcode", "memlimit:%d" % SMALL2, "dcont", "memlimit:1", "dcont", "dcont",
+                                    "memlimit:%d" % BIG, "dcont",
+                                    "sdecml:0:%d:%s" % (SMALL2, X1), "memlimit:%d" % SMALL, "dcode", "dcont", "sdecml:0:%d:%s" % (SMALL, X2), "dcode",
+                                    "sdecml:0:%d:%s" % (BIG, X1), "memlimit:%d" % SMALL, "dcode", "memlimit:%d" % BIG, "dcont",
+                                    "sdecml:0:1:%s" % xz(L2a, 800, 1, 1), "dcode", "memlimit:%d" % BIG, "dcont"])
+        add("adec-memlimit-retry", ["adecml:0:%d:%s" % (SMALL, X1), "dcode", "memlimit:%d" % SMALL2, "dcont", "memlimit:%d" % BIG, "dcont",
+                                    # (no lzma_memlimit_set between a RE-init of the auto decoder and its first lzma_code: see
+                                    # findings/C10-auto-decoder-memconfig-stale-subdecoder.md, an assert outside C10's statement)
+                                    "adecml:0:%d:%s" % (SMALL, X2), "dcode", "memlimit:1", "memlimit:%d" % SMALL2, "dcont", "adecml:8:%d:%s" % (BIG, X2), "dcode",
+                                    "adecml:0:%d:%s" % (SMALL, X1), "dcode"])
+        add("block-init-options-error", ["sdec:0:badxz/%s" % D4, "dcode", "sdec:0:badxz/%s+%s" % (L2a, D4), "dcode", "adec:0:badxz/%s+%s" % (X86o, D1), "dcode",
+                                         "sdecml:0:%d:badxz/%s+%s+%s" % (SMALL, D1, L2a, L2a), "dcode", "sbufdec:0:badxz/%s+%s" % (D4, D1),
+                                         "sdec:0:" + X1, "dcode"])
+        add("notifications-then-end-or-continue", ["sdec:4:" + X1, "dstop", "sdec:4:" + X1, "dstop", "dcont", "sdec:1:" + xz("%s+%s" % (D1, L2a), 900, 1, 1, "none"),
+                                                   "dstop", "dcont", "sdecml:4:%d:%s" % (SMALL, X1), "dstop", "dcont", "memlimit:%d" % BIG, "dcont",
+                                                   "adec:4:" + X2, "dstop", "adecml:5:%d:%s" % (SMALL, xz("%s+%s" % (X86o, L2a), 700, 2, 1, "none")), "dstop", "dcont",
+                                                   "memlimit:%d" % BIG, "dcont", "sdec:4:" + X1, "dstop"])
         # --- lzma_index_* ---------------------------------------------------------------------
         add("index-ops", ["ix_init:0", "ix_app:0:600", "ix_init:1", "ix_app:1:3", "ix_cat:0:1", "ix_dup:1:0", "ix_app:1:2", "ix_end:0",
                           "ix_init:0", "ix_cat:1:0", "ix_dup:2:1", "ix_end:1"], slots=(0, 1, 2))
@@ -240,6 +266,15 @@ class Gen:
         add("mt-refused-updates", ["sencmt:%s:crc32:2:8192" % L2a, "run:20000", "upd:%s" % L2c, "upd:%s+%s" % (D4, L2a), "full:100", "upd:%s" % L2c,
                                    "run:5000", "upd:%s" % L2bad, "upd:%s" % L2a, "finish:10", "upd:%s" % L2a, "sdecmt:0:2:" + xz(L2a, 3000, 3, 1), "memlimit:1",
                                    "badaction", "dcode"], mt=True)
+        M1 = xzmt("%s+%s" % (D4, L2a), 3000, 3, 1)
+        add("mt-decoder-memlimit", ["sdecmtml:0:2:%d:%s" % (SMALL, M1), "dcode", "memlimit:%d" % BIG, "dcont", "sdecmtml:0:2:%d:%s" % (SMALL, M1), "dcode",
+                                    "sdecmtml:0:2:%d:%s" % (SMALL, X1), "dcode", "memlimit:%d" % SMALL2, "dcont", "memlimit:%d" % BIG, "dcont",
+                                    "sdecmtml:4:2:%d:%s" % (SMALL, M1), "dstop", "dcont", "sdecmt:0:2:badxz/%s+%s" % (L2a, D4), "dcode"], mt=True)
+        # LZMA_SEEK_NEEDED then lzma_end / continue (the file-info decoder's seeks are not modelled: direct oracle only)
+        BIGF = xz(L2a, 9000, 2, 3)
+        add("seek-needed-then-end-or-continue", ["fidec:0:" + BIGF, "dstop", "end", "fidec:0:" + BIGF, "dstop", "dcont", "ix_end:0",
+                                                 "fidec:0:" + BIGF, "dstop", "fidec:1:" + xz(L2a, 500, 1, 2), "dcode", "ix_end:1",
+                                                 "fidec:1:" + BIGF, "dcode"], slots=(0, 1), mt=True)
         add("mt-mixed", ["sencmt:%s:crc32:2:8192" % L2a, "run:20000", "sdecmt:0:2:" + xz(L2a, 3000, 3, 1), "dcode", "senc:%s:crc32" % L2a,
                          "finish:100", "sdecmt:0:2:" + xz(L2a, 3000, 3, 1), "sencmt:%s:crc32:2:8192" % L2a, "finish:20000"], mt=True)
         return S
@@ -281,7 +316,17 @@ class Gen:
                 elif r == 2:
                     steps += ["sdec:%d:%s" % (rng.choice((0, 8)), xz(ch, rng.choice((0, 400, 1500)), rng.randrange(1, 4), 1))] + (["dcode"] if rng.random() < .8 else [])
                 elif r == 3:
-                    steps += ["sdec:8:" + xz(ch, 600, rng.randrange(1, 3), rng.randrange(2, 4)), "dcode"]
+                    if rng.random() < .5:
+                        steps += ["sdec:8:" + xz(ch, 600, rng.randrange(1, 3), rng.randrange(2, 4)), "dcode"]
+                    else:
+                        # memory limit too small at Block init, then end / re-init / lzma_memlimit_set + retry
+                        dec = rng.choice(("sdecml", "adecml"))
+                        steps += ["%s:%d:%d:%s" % (dec, rng.choice((0, 4, 8)), rng.choice((1, SMALL, SMALL2)), xz(ch, 600, rng.randrange(1, 3), 1)),
+                                  rng.choice(("dcode", "dstop"))]
+                        for _ in range(rng.randrange(0, 4)):
+                            steps += ["memlimit:%d" % rng.choice((1, SMALL, SMALL2)), "dcont"]
+                        if rng.random() < .7:
+                            steps += ["memlimit:%d" % BIG, "dcont"]
                 elif r == 4:
                     steps += ["alonedec:0:lzma/%s/%d" % (rng.choice(l1), rng.choice((10, 900))), "dcode"]
                 elif r == 5:
@@ -356,6 +401,7 @@ def direct_oracle(steps, base, res, mt):
         probs.append("number of step results differs from the failure-free run")
         return probs
     ntail = len(steps) - 1 - steps.index("nofail")      # steps after nofail
+    steps_wo_nofail = [st for st in steps if st != "nofail"]
     nsteps = len(res["rets"])
     for i, (r, b) in enumerate(zip(res["rets"], base["rets"])):
         in_tail = i >= nsteps - ntail
@@ -365,6 +411,10 @@ def direct_oracle(steps, base, res, mt):
         elif res["nf"] == 0:
             if r != b and not mt:
                 probs.append("step %d returned %d without any failed allocation (failure-free: %d)" % (i, r, b))
+        elif steps_wo_nofail[i].startswith("memlimit:") and r in (0, 6):
+            # lzma_memlimit_set is accepted or refused depending on the memory usage the decoder has computed so far, which an
+            # earlier failure legitimately changes
+            pass
         elif r not in (b, 5, 98, 99):
             # after an earlier failure a later step may see a different but legal state (e.g. coding skipped);
             # anything else than the failure-free code, LZMA_MEM_ERROR, NULL or "skipped" is a wrong report
